@@ -151,6 +151,29 @@ theorem manager_inv (ops : List (Op × List Nat)) (hw : runWf MState.init ops = 
       (Lemmas.C03.inv_run _ ops Lemmas.C03.good_init Lemmas.C03.nd_init Lemmas.C03.wfs_init hw).1 h0 D hD
     ⟨ls', hm, hc⟩
 
+/-- The same invariant with NO well-formedness hypothesis, for every history in which no dataset is
+removed from the collection (`Lemmas.C03.noRemove`): links between dead or foreign cids, datasets
+that do not own their cids, `update_id` applied to a link endpoint and operations that raise are all
+allowed.  `DataCollection.remove` is the only operation whose preservation of the invariant needs
+`runWf` (it does not re-sync when it drops no link), which is why `manager_inv` carries it. -/
+theorem manager_inv_noRemove_unconditional (ops : List (Op × List Nat))
+    (hn : Lemmas.C03.noRemove ops = true) (h0 : (run MState.init ops).delay = 0) :
+    ∀ D ∈ (run MState.init ops).dsets, ∃ ls',
+      (∀ l, l ∈ ls' ↔ l ∈ curLinks (run MState.init ops)) ∧ D.cache = discoverLinks D.comps ls' :=
+  fun D hD =>
+    let ⟨ls', hm, hc, _⟩ := Lemmas.C03.good_run_noRemove _ ops Lemmas.C03.good_init hn h0 D hD
+    ⟨ls', hm, hc⟩
+
+/-- Non-vacuity: the ill-formed `update_id` history below (rejected by `runWf`) meets the hypotheses. -/
+example :
+    let h : List (Op × List Nat) :=
+      [(.newData 0 [((0, 1), [1, 2])], []), (.newData 1 [((1, 1), [5, 6])], []),
+       (.append 0, []), (.append 1, []),
+       (.addLink (.single ⟨3, ⟨[(0, 1)], (1, 1), ⟨[3], 0⟩⟩, none⟩), [3]),
+       (.updateId 0 (0, 1) (0, 9), [3])]
+    runWf MState.init h = false ∧ Lemmas.C03.noRemove h = true ∧ (run MState.init h).delay = 0 := by
+  decide
+
 /-- What the datasets read after such a history, outside a delay block: the externally derivable
 cids are exactly the reachable foreign ones (the dataset's own derived attributes are reached
 through their internal links) and — for a dataset whose own derived attributes are installed with
